@@ -9,6 +9,7 @@ import (
 	"math/rand"
 	"regexp"
 	"runtime/debug"
+	"sort"
 	"strings"
 	"sync"
 	"time"
@@ -17,6 +18,7 @@ import (
 	"oss.terrastruct.com/d2/d2compiler"
 	"oss.terrastruct.com/d2/d2format"
 	"oss.terrastruct.com/d2/d2graph"
+	"oss.terrastruct.com/d2/d2layouts"
 	"oss.terrastruct.com/d2/d2layouts/d2dagrelayout"
 	"oss.terrastruct.com/d2/d2layouts/d2elklayout"
 	"oss.terrastruct.com/d2/d2lib"
@@ -580,7 +582,7 @@ func pipeRun(in pipeInput, stages map[string]bool) (evs []tr.M, nt []string) {
 		// ---- the plugin wire protocol (C26): the same pipeline with every core-layout call going through
 		// SerializeGraph -> DeserializeGraph -> layout -> SerializeGraph -> DeserializeGraph, as d2plugin exec/serve do
 		if stages["serde"] && lerr == nil {
-			se := tr.M{"ev": "serde", "rtBefore": 1, "rtAfter": 1, "sameResult": 0, "calls": 0, "msg": ""}
+			se := tr.M{"ev": "serde", "rtBefore": 1, "rtAfter": 1, "sameResult": 0, "calls": 0, "msg": "", "routes": []tr.M{}}
 			guard("serde", &evs, func() {
 				digest := func(gr *d2graph.Graph) string {
 					gm := geomOf(gr)
@@ -625,7 +627,43 @@ func pipeRun(in pipeInput, stages map[string]bool) (evs []tr.M, nt []string) {
 					}
 					return nil
 				}
-				_, gw, err := d2lib.Compile(quietCtx(), text, &d2lib.CompileOptions{Ruler: ruler(), LayoutResolver: func(string) (d2graph.LayoutGraph, error) { return wire, nil }}, nil)
+				// the route-edges leg, as d2plugin/exec.go writes it and d2plugin/serve.go reads it; the routing itself is done in-process
+				routes := []tr.M{}
+				edgeKeys := func(es []*d2graph.Edge) []string {
+					ks := []string{}
+					for _, e := range es {
+						s, d := "<nil>", "<nil>"
+						if e.Src != nil {
+							s = e.Src.AbsID()
+						}
+						if e.Dst != nil {
+							d = e.Dst.AbsID()
+						}
+						ks = append(ks, fmt.Sprintf("%s|%s|%d", s, d, e.Index))
+					}
+					sort.Strings(ks)
+					return ks
+				}
+				routeWire := func(ctx context.Context, gr *d2graph.Graph, edges []*d2graph.Edge) error {
+					m := tr.M{"asked": edgeKeys(edges), "received": []string{"<protocol failed>"}}
+					if b1, err := d2graph.SerializeGraph(gr); err == nil {
+						var g2 d2graph.Graph
+						if err := d2graph.DeserializeGraph(b1, &g2); err == nil {
+							g2.Edges = edges
+							if b2, err := d2graph.SerializeGraph(&g2); err == nil {
+								var gedges d2graph.Graph
+								if err := d2graph.DeserializeGraph(b2, &gedges); err == nil {
+									m["received"] = edgeKeys(gedges.Edges)
+								}
+							}
+						}
+					}
+					routes = append(routes, m)
+					return d2layouts.DefaultRouter(ctx, gr, edges)
+				}
+				defer func() { se["routes"] = routes }()
+				_, gw, err := d2lib.Compile(quietCtx(), text, &d2lib.CompileOptions{Ruler: ruler(), LayoutResolver: func(string) (d2graph.LayoutGraph, error) { return wire, nil },
+					RouterResolver: func(string) (d2graph.RouteEdges, error) { return routeWire, nil }}, nil)
 				if err != nil {
 					se["msg"] = firstN("layout through the wire failed: "+err.Error(), 240)
 					return
